@@ -1128,3 +1128,154 @@ impl TxBuilder for SpecTxBuilder {
 		)
 	}
 }
+
+/// Verification hooks (feature `_verif_hooks` only): by-value public wrappers over the private
+/// amount-level functions of this file, used by external correspondence checkers. Add-only.
+#[cfg(feature = "_verif_hooks")]
+#[allow(missing_docs)]
+pub mod verif_hooks_c01 {
+	use super::*;
+
+	pub struct NullLogger;
+	impl Logger for NullLogger {
+		fn log(&self, _record: crate::util::logger::Record) {}
+	}
+
+	/// `[holder_dust_limit, counterparty_selected_reserve, counterparty_dust_limit,
+	/// holder_selected_reserve, counterparty_htlc_minimum_msat,
+	/// counterparty_max_htlc_value_in_flight_msat, counterparty_max_accepted_htlcs]`
+	fn constraints(c: [u64; 7]) -> ChannelConstraints {
+		ChannelConstraints {
+			holder_dust_limit_satoshis: c[0],
+			counterparty_selected_channel_reserve_satoshis: c[1],
+			counterparty_dust_limit_satoshis: c[2],
+			holder_selected_channel_reserve_satoshis: c[3],
+			counterparty_htlc_minimum_msat: c[4],
+			counterparty_max_htlc_value_in_flight_msat: c[5],
+			counterparty_max_accepted_htlcs: c[6],
+		}
+	}
+
+	fn dirs(htlcs: &[(bool, u64)]) -> Vec<HTLCAmountDirection> {
+		htlcs
+			.iter()
+			.map(|(outbound, amount_msat)| HTLCAmountDirection {
+				outbound: *outbound,
+				amount_msat: *amount_msat,
+			})
+			.collect()
+	}
+
+	pub fn is_dust(
+		outbound: bool, amount_msat: u64, local: bool, feerate_per_kw: u32,
+		broadcaster_dust_limit_satoshis: u64, channel_type: &ChannelTypeFeatures,
+	) -> bool {
+		HTLCAmountDirection { outbound, amount_msat }.is_dust(
+			local,
+			feerate_per_kw,
+			broadcaster_dust_limit_satoshis,
+			channel_type,
+		)
+	}
+
+	/// `(commit_tx_fee_sat, second_stage_tx_fees_sat.0, .1, htlc_tx_fees_sat, total_anchors_sat,
+	/// get_dust_buffer_feerate)`
+	pub fn fees(
+		feerate_per_kw: u32, num_htlcs: usize, num_accepted: usize, num_offered: usize,
+		channel_type: &ChannelTypeFeatures,
+	) -> (u64, u64, u64, u64, u64, u32) {
+		let (s, t) = second_stage_tx_fees_sat(channel_type, feerate_per_kw);
+		(
+			commit_tx_fee_sat(feerate_per_kw, num_htlcs, channel_type),
+			s,
+			t,
+			htlc_tx_fees_sat(feerate_per_kw, num_accepted, num_offered, channel_type),
+			total_anchors_sat(channel_type),
+			get_dust_buffer_feerate(feerate_per_kw),
+		)
+	}
+
+	/// Runs `SpecTxBuilder::build_commitment_transaction`; returns the transaction and
+	/// `(commit_tx_fee_sat, local_balance_before_fee_msat, remote_balance_before_fee_msat)`.
+	pub fn build_commitment_transaction(
+		local: bool, commitment_number: u64, per_commitment_point: &PublicKey,
+		channel_parameters: &ChannelTransactionParameters, secp_ctx: &Secp256k1<secp256k1::All>,
+		value_to_self_msat: u64, htlcs_in_tx: Vec<HTLCOutputInCommitment>, feerate_per_kw: u32,
+		broadcaster_dust_limit_satoshis: u64,
+	) -> (CommitmentTransaction, (u64, u64, u64)) {
+		let (tx, stats) = SpecTxBuilder {}.build_commitment_transaction(
+			local,
+			commitment_number,
+			per_commitment_point,
+			channel_parameters,
+			secp_ctx,
+			value_to_self_msat,
+			htlcs_in_tx,
+			feerate_per_kw,
+			broadcaster_dust_limit_satoshis,
+			&NullLogger,
+		);
+		(
+			tx,
+			(
+				stats.commit_tx_fee_sat,
+				stats.local_balance_before_fee_msat,
+				stats.remote_balance_before_fee_msat,
+			),
+		)
+	}
+
+	/// `get_next_commitment_stats`: `(holder_balance_msat, counterparty_balance_msat,
+	/// dust_exposure_msat)`.
+	pub fn next_commitment_stats(
+		local: bool, is_outbound_from_holder: bool, channel_value_satoshis: u64,
+		value_to_holder_msat: u64, htlcs: &[(bool, u64)], addl_nondust_htlc_count: usize,
+		feerate_per_kw: u32, assume_fee_spike: bool, dust_exposure_limiting_feerate: Option<u32>,
+		broadcaster_dust_limit_satoshis: u64, channel_type: &ChannelTypeFeatures,
+	) -> Result<(u64, u64, u64), ()> {
+		get_next_commitment_stats(
+			local,
+			is_outbound_from_holder,
+			channel_value_satoshis,
+			value_to_holder_msat,
+			&dirs(htlcs),
+			addl_nondust_htlc_count,
+			feerate_per_kw,
+			assume_fee_spike,
+			dust_exposure_limiting_feerate,
+			broadcaster_dust_limit_satoshis,
+			channel_type,
+		)
+		.map(|s| (s.holder_balance_msat, s.counterparty_balance_msat, s.dust_exposure_msat))
+	}
+
+	/// `get_available_balances`: `[inbound_capacity_msat, outbound_capacity_msat,
+	/// next_outbound_htlc_limit_msat, next_outbound_htlc_minimum_msat, dust_exposure_msat,
+	/// next_splice_out_maximum_sat]`.
+	pub fn available_balances(
+		is_outbound_from_holder: bool, channel_value_satoshis: u64, value_to_holder_msat: u64,
+		htlcs: &[(bool, u64)], feerate_per_kw: u32, dust_exposure_limiting_feerate: Option<u32>,
+		max_dust_htlc_exposure_msat: u64, channel_constraints: [u64; 7],
+		channel_type: &ChannelTypeFeatures,
+	) -> [u64; 6] {
+		let b = get_available_balances(
+			is_outbound_from_holder,
+			channel_value_satoshis,
+			value_to_holder_msat,
+			&dirs(htlcs),
+			feerate_per_kw,
+			dust_exposure_limiting_feerate,
+			max_dust_htlc_exposure_msat,
+			constraints(channel_constraints),
+			channel_type,
+		);
+		[
+			b.inbound_capacity_msat,
+			b.outbound_capacity_msat,
+			b.next_outbound_htlc_limit_msat,
+			b.next_outbound_htlc_minimum_msat,
+			b.dust_exposure_msat,
+			b.next_splice_out_maximum_sat,
+		]
+	}
+}
